@@ -146,8 +146,10 @@ class BaseDB(object):
 
         self.lock.acquire()
         try:
-            usernames = self.db.keys()
+            usernames = list(self.db.keys())
         finally:
             self.lock.release()
-        usernames = [u for u in usernames if not u.startswith("--Reserved--")]
+        usernames = [u for u in usernames if not
+                     u.startswith(b"--Reserved--" if isinstance(u, bytes)
+                                  else "--Reserved--")]
         return usernames
